@@ -30,7 +30,7 @@ for l in files:
     f = l[3:].strip()
     if f.endswith(".go") or f.endswith(".yaml"):
         src = os.path.join(wt, f); dst = os.path.join("/repo", f)
-        if os.path.isfile(src) and dst not in d["Replace"]:
+        if os.path.isfile(src) and dst not in d["Replace"] and src not in d["Replace"]:
             d["Replace"][dst] = src
 # overlay keys computed for the worktree must point at /repo (the module the harness builds against)
 fixed = {}
